@@ -68,5 +68,14 @@ for name in sorted(sr):
     srows.append('| %s | %s | %s | exit %s | %s |' % (name, r['property'], r['verdict'], r.get('demo_exit_on_patched_tree'),
                                                  (r.get('summary') or '').replace('|', '\\|')[:260]))
 body = body.replace('@@SEEDED_TABLE@@', '\n'.join(srows))
+try:
+    nr = J('specs', 'neutral_results.json')
+except Exception:
+    nr = {}
+nrows = ['| behaviour-preserving edit | property | verdict of the check |', '|---|---|---|']
+for name in sorted(nr):
+    nrows.append('| %s | %s | %s%s |' % (name, nr[name]['property'], nr[name]['verdict'],
+                                        (' - ' + nr[name]['lines'][0][:160]) if nr[name]['lines'] else ''))
+body = body.replace('@@NEUTRAL_TABLE@@', '\n'.join(nrows))
 open(os.path.join(ROOT, 'DESIGN.md'), 'w').write(design.rstrip('\n') + '\n\n' + body)
 print('DESIGN.md rendered:', len(design.splitlines()), '+', len(body.splitlines()), 'lines')
